@@ -124,6 +124,12 @@ func init() {
 		"internal/bytealg.Compare": ext1(func(fr *frame, a []value) value {
 			return seqCompare(fr.i, a[0].([]value), a[1].([]value))
 		}),
+		"internal/bytealg.CompareString": ext1(func(fr *frame, a []value) value {
+			return seqCompare(fr.i, mustBytes(a[0]), mustBytes(a[1]))
+		}),
+		"strings.Compare": ext1(func(fr *frame, a []value) value {
+			return seqCompare(fr.i, mustBytes(a[0]), mustBytes(a[1]))
+		}),
 		"internal/bytealg.Index":       ext1(func(fr *frame, a []value) value { return seqIndex(fr.i, a[0].([]value), a[1].([]value)) }),
 		"internal/bytealg.IndexString": ext1(func(fr *frame, a []value) value { return seqIndex(fr.i, mustBytes(a[0]), mustBytes(a[1])) }),
 		"internal/bytealg.MakeNoZero": ext1(func(fr *frame, a []value) value {
@@ -206,6 +212,23 @@ func init() {
 			}
 			return out
 		}),
+
+		// ---- base64 summary on symbolic payloads ----
+		"(*encoding/base64.Encoding).EncodeToString": func(fr *frame, a []value) (value, bool) {
+			src := a[1].([]value)
+			for _, b := range src {
+				if isSym(b) {
+					return tagstr{fn: "b64", arg: append([]value(nil), src...)}, true
+				}
+			}
+			return nil, false
+		},
+		"(*encoding/base64.Encoding).DecodeString": func(fr *frame, a []value) (value, bool) {
+			if t, ok := a[1].(tagstr); ok && t.fn == "b64" {
+				return tuple{append([]value(nil), t.arg.([]value)...), iface{}}, true
+			}
+			return nil, false
+		},
 
 		// ---- errors ----
 		"errors.Is": ext1(extErrorsIs),
